@@ -27,6 +27,7 @@ var SecretOps = []string{
 	"sc.add", "sc.sub", "sc.mul", "sc.square", "sc.neg", "sc.invert", "sc.condneg", "sc.condsel", "sc.sumprod", "sc.bytes", "sc.frombytes",
 	"scalarmult", "basemult", "multimult", "newpriv", "newpriv.scalar", "ecdh",
 	"signraw", "sign", "signrfc6979", "schnorr.newpriv", "schnorr.sign",
+	"fe.preds", "sc.preds", "point.cond", "priv.equal", "schnorr.priv.equal", "schnorr.fromecdsa",
 }
 
 // PublicOps operate on public data only (variable time allowed).
@@ -89,7 +90,7 @@ func Draw(t *rapid.T, op string, label string) Request {
 	sec := func(i int) { r.Secret = append(r.Secret, i) }
 	scalar := func(l string) []byte { v, _ := SecretScalar(t, label+l); return ref.B32(v) }
 	switch op {
-	case "fe.add", "fe.sub", "fe.mul", "fe.square", "fe.neg", "fe.invert", "fe.sqrt", "fe.sqrtratio", "fe.equal", "fe.condneg", "fe.bytes":
+	case "fe.preds", "fe.add", "fe.sub", "fe.mul", "fe.square", "fe.neg", "fe.invert", "fe.sqrt", "fe.sqrtratio", "fe.equal", "fe.condneg", "fe.bytes":
 		a, b, _ := gen.Pair(t, ref.P, label+"_fe")
 		if op == "fe.sqrtratio" && b.Sign() == 0 {
 			b = big.NewInt(1)
@@ -97,7 +98,21 @@ func Draw(t *rapid.T, op string, label string) Request {
 		r.Args = [][]byte{ref.B32(a), ref.B32(b)}
 		sec(0)
 		sec(1)
-	case "sc.add", "sc.sub", "sc.mul", "sc.square", "sc.neg", "sc.invert", "sc.condneg", "sc.condsel", "sc.sumprod", "sc.bytes":
+	case "priv.equal", "schnorr.priv.equal":
+		// two private keys: equal, neighbours, related by negation, or unrelated
+		a, b, _ := gen.Pair(t, ref.N, label+"_keys")
+		for _, v := range []*big.Int{a, b} {
+			if v.Sign() == 0 {
+				v.SetInt64(1)
+			}
+		}
+		r.Args = [][]byte{ref.B32(a), ref.B32(b)}
+		sec(0)
+		sec(1)
+	case "point.cond":
+		r.Args = [][]byte{gen.Point(t, label+"_P").P.Uncompressed(), gen.Point(t, label+"_Q").P.Uncompressed(), {byte(rapid.IntRange(0, 1).Draw(t, label+"_ctrl"))}}
+		sec(2)
+	case "sc.preds", "sc.add", "sc.sub", "sc.mul", "sc.square", "sc.neg", "sc.invert", "sc.condneg", "sc.condsel", "sc.sumprod", "sc.bytes":
 		a, b, _ := gen.Pair(t, ref.N, label+"_sc")
 		r.Args = [][]byte{ref.B32(a), ref.B32(b)}
 		sec(0)
@@ -108,7 +123,7 @@ func Draw(t *rapid.T, op string, label string) Request {
 	case "scalarmult":
 		r.Args = [][]byte{scalar("_s"), pointEnc(t, label+"_P")}
 		sec(0)
-	case "basemult", "newpriv", "newpriv.scalar", "schnorr.newpriv":
+	case "basemult", "newpriv", "newpriv.scalar", "schnorr.newpriv", "schnorr.fromecdsa":
 		r.Args = [][]byte{scalar("_s")}
 		sec(0)
 	case "multimult", "multimult.vartime":
